@@ -245,7 +245,11 @@ def run(ctx):
                        "both fragmented encode modes) EncodeSW into a writer of Size() bytes = Encode. Z = Fragment.AddSampleToTrack for up to 6 sample sizes "
                        "(0 .. 2^32-1, totals on both sides of 2^32-9) then Encode of the fragment's mdat vs lazy_size_after / mdat_for_writing; L = the same "
                        "for samples a..b of synthesized progressive files + CopySampleData from the lazy decoding, hypotheses and conclusion of "
-                       "C08_lazy_writer_end_to_end evaluated by the driver on the implementation's answers" % (n + n // 4 + 1 + n // 2 + 1, exh))
+                       "C08_lazy_writer_end_to_end evaluated by the driver on the implementation's answers. search also (header size limits): AddSampleToTrack "
+                       "for sizes up to 2^32-1 - accumulated size = their sum, Encode writes a well-formed header announcing exactly that payload (single "
+                       "samples of 2^32-10 .. 2^32-8 bytes included); mdat boxes of 2^32-1, 2^32-2, ... bytes with an 8-byte header and 16-byte headers "
+                       "on both sides of 2^32, decoded lazily from a position-synthesizing reader: Size / HeaderSize / PayloadAbsoluteOffset, Encode and "
+                       "EncodeSW = the original header, the last 3 payload bytes through ReadData" % (n + n // 4 + 1 + n // 2 + 1, exh))
 
 
 def hook_search(ctx, exe):
